@@ -315,7 +315,12 @@ static void run_scenario(const Scenario &sc)
         int cls = (sc.fto + f) % 4;
         emitf("{\"e\":\"FFCall\",\"f\":%d,\"to\":%d}", f, cls);
         bool r = proc->ForceFlush(fto_value(cls));
-        emitf("{\"e\":\"FFRet\",\"f\":%d,\"r\":%s}", f, r ? "true" : "false");
+        long cons;
+        {
+          vs::NoYield ny;  // sampled at the return, before anything else can run
+          cons = proc->consumed();
+        }
+        emitf("{\"e\":\"FFRet\",\"f\":%d,\"r\":%s,\"cons\":%ld}", f, r ? "true" : "false", cons);
       });
     if (!sc.destroy)
       for (int s = 0; s < sc.ns; ++s)
